@@ -418,14 +418,30 @@ func runC14(c *Ctx) {
 				return e != nil && e.K == EField && e.Var == f && f != nil && e.X != nil && MethodNamed("Header")(e.X)
 			}
 		}
-		equalFold := c.fobj("C14-R2", "strings.EqualFold")
-		foldOf := func(a, b Pat) Pat {
+		// the name-equality atom: a two-argument boolean predicate applied to exactly
+		// these two names (either order), each possibly rooted/lower-cased first by the
+		// library (CanonicalName / Fqdn).  Which predicate it is — strings.EqualFold
+		// before the F-C14-1 repair, an ASCII-only fold after it — is C14-R7's business;
+		// this rule only requires that the nil return lies behind it.
+		canonName := c.fobj("C14-R2", lib+".CanonicalName")
+		fqdnF := c.fobj("C14-R2", lib+".Fqdn")
+		rooted := func(p Pat) Pat {
 			return func(e *Expr) bool {
-				if !CallTo(equalFold)(e) {
+				if p(e) {
+					return true
+				}
+				s := strip(e)
+				return s != nil && s.K == ECall && CallTo(canonName, fqdnF)(s) && len(s.Args) == 1 && p(s.Args[0])
+			}
+		}
+		foldOf := func(a, b Pat) Pat {
+			a, b = rooted(a), rooted(b)
+			return func(e *Expr) bool {
+				e = strip(e)
+				if e == nil || e.K != ECall || len(e.Args) != 2 || e.V == nil {
 					return false
 				}
-				e = strip(e)
-				if len(e.Args) != 2 {
+				if bt, ok := e.V.Type().Underlying().(*types.Basic); !ok || bt.Kind() != types.Bool {
 					return false
 				}
 				return (a(e.Args[0]) && b(e.Args[1])) || (a(e.Args[1]) && b(e.Args[0]))
@@ -446,11 +462,11 @@ func runC14(c *Ctx) {
 			OnCmp("sig.KeyTag == KeyTag(k)", FieldIs(fRR("KeyTag")), token.EQL, CallTo(keyTag), true),
 			OnCmp("sig.Algorithm == k.Algorithm", FieldIs(fRR("Algorithm")), token.EQL, FieldIs(fKey("Algorithm")), true),
 			OnCmp("sig.Hdr.Class == k.Hdr.Class", hdrField(cls, sigHdr), token.EQL, hdrField(cls, keyHdr), true),
-			OnTrue("EqualFold(sig.SignerName, k.Hdr.Name)", foldOf(FieldIs(fRR("SignerName")), hdrField(name, keyHdr))),
+			OnTrue("sameName(sig.SignerName, k.Hdr.Name)", foldOf(FieldIs(fRR("SignerName")), hdrField(name, keyHdr))),
 			OnCmp("h0.Class == sig.Hdr.Class", h0Field(cls), token.EQL, hdrField(cls, sigHdr), true),
 			OnCmp("h0.Rrtype == sig.TypeCovered", h0Field(rrtype), token.EQL, FieldIs(fRR("TypeCovered")), true),
 			OnCmp("CountLabel(h0.Name) >= sig.Labels", CallTo(countLabel), token.GEQ, FieldIs(fRR("Labels")), true),
-			OnTrue("EqualFold(h0.Name, sig.Hdr.Name)", foldOf(h0Field(name), hdrField(name, sigHdr))),
+			OnTrue("sameName(h0.Name, sig.Hdr.Name)", foldOf(h0Field(name), hdrField(name, sigHdr))),
 			OnTrue("NameInZone(h0.Name, signer)", CallTo(nameInZone)),
 		}
 		c.c14MustCrossAcceptAll("C14-R2", fn, "signatureBinding returns nil", 0, IsNilConst, nil, atoms...)
